@@ -58,6 +58,9 @@ var c02Kinds = []linkKind{
 	// a copy of A's honest link whose signature entry and file name spell A's key id in upper case:
 	// whatever one thinks of the spelling, it is not a second functionary
 	{"copy-of-A-under-upper-case-spelling-of-A's-id", "", "", false},
+	// key-authorized functionaries whose evidence has an unusual but legal form
+	{"honest-key-A-whose-signature-also-carries-an-unrelated-certificate", "A", "key", false},
+	{"honest-key-B-filed-as-a-symlink-to-the-link-file", "B", "key", false},
 	{"garbage-bytes", "", "", false},
 	{"truncated-json", "", "", false},
 	// observed: the library accepts it (the link's name is never compared with the
@@ -75,6 +78,7 @@ type c02Env struct {
 	// intermediate of a foreign chain: the verifier passes it as "additional intermediate" (it must not become a trust anchor)
 	foreignInter *gen.CA
 	names        map[string]string // kind name -> file name
+	symlink      map[string]bool   // kind name -> the file in the link directory is a symlink to the real file
 }
 
 func c02Link(step string) intoto.Link {
@@ -90,7 +94,7 @@ func dumpBytes(c *core.Ctx, md intoto.Metadata) []byte {
 
 func newC02Env(c *core.Ctx, dsse bool) (*c02Env, error) {
 	fast := gen.Fast(Pool(c))
-	e := &c02Env{c: c, dsse: dsse, fn: map[string]gen.Functionary{}, files: map[string][]byte{}, names: map[string]string{}}
+	e := &c02Env{c: c, dsse: dsse, fn: map[string]gen.Functionary{}, files: map[string][]byte{}, names: map[string]string{}, symlink: map[string]bool{}}
 	var err error
 	if e.root, err = gen.NewCA(gen.CertSpec{CN: "layout-root"}, nil); err != nil {
 		return nil, err
@@ -182,6 +186,20 @@ func newC02Env(c *core.Ctx, dsse bool) (*c02Env, error) {
 		d["signatures"] = entries
 		b, _ := json.Marshal(d)
 		put("copy-of-A-under-upper-case-spelling-of-A's-id", "s."+up[:8]+".link", b)
+	}
+	{
+		// A signs with its listed key; the signature entry also carries a certificate (for A's key,
+		// issued by a CA nobody knows): A is authorized by key, the certificate is beside the point
+		af := e.fn["A"]
+		if pemS, _, ierr := foreign.Issue(gen.CertSpec{CN: "somebody"}, af.Public); ierr == nil && !dsse {
+			af.CertPEM = pemS
+			md, _ := gen.SignedMeta(link, dsse, af.SigningKey())
+			put("honest-key-A-whose-signature-also-carries-an-unrelated-certificate", name(e.fn["A"]), dumpBytes(c, md))
+		} else {
+			put("honest-key-A-whose-signature-also-carries-an-unrelated-certificate", name(e.fn["A"]), aBytes)
+		}
+		put("honest-key-B-filed-as-a-symlink-to-the-link-file", name(e.fn["B"]), bBytes)
+		e.symlink["honest-key-B-filed-as-a-symlink-to-the-link-file"] = true
 	}
 	put("copy-of-A-under-another-name", "s.deadbeef.link", aBytes)
 	forged := func(src []byte, withCert string) []byte {
@@ -399,6 +417,13 @@ func runC02(c *core.Ctx) {
 					tLinkC.Dump(filepath.Join(dir, gen.LinkName("t", env.fn["C"].Pub.KeyID)))
 					for _, ki := range pop {
 						k := c02Kinds[ki]
+						if env.symlink[k.name] {
+							tdir := dir + "-link-targets"
+							os.MkdirAll(tdir, 0755)
+							os.WriteFile(filepath.Join(tdir, "real-"+env.names[k.name]), env.files[k.name], 0644)
+							os.Symlink(filepath.Join(tdir, "real-"+env.names[k.name]), filepath.Join(dir, env.names[k.name]))
+							continue
+						}
 						os.WriteFile(filepath.Join(dir, env.names[k.name]), env.files[k.name], 0644)
 					}
 					wantOK := len(counted) >= threshold
@@ -468,6 +493,7 @@ func runC02(c *core.Ctx) {
 						c.Sample("population", detail)
 					}
 					os.RemoveAll(dir)
+					os.RemoveAll(dir + "-link-targets")
 				}
 			}
 		}
@@ -692,7 +718,7 @@ func init() {
 	core.Register(&core.Property{
 		ID:    "C02",
 		Level: "exploration",
-		Rule: "layout with steps t (earlier), s (under test), u (later); step s with threshold 1..3 and authorization by {2 listed keys, 1 certificate constraint + layout root/intermediate CA, both}; link-file populations for s = all multisets of size<=2 (quick) / <=3 (thorough, + 2000 random ones of size 4-8) over a catalogue of 26 link kinds (honest key A/B, honest certificate C / D via intermediate, tampered, unsigned, unauthorized key, key of an earlier / a later step, copy under another name, copy with forged key-id entry without / with the honest certificate, relabelled copy (forged id with the honest signature value and certificate), junk signatures before/after, expired / foreign-root / constraint-failing certificate, certificate repeating one of two required organizations, tampered copy filed under nine characters of the honest functionary's key id, copy under the upper-case spelling of the honest functionary's key id, garbage, truncated JSON, link of another step renamed) x 2 wrappers; the earlier step t also admits certificate functionary C (its verdict must not leak into s); every population of >=2 files is verified 8 times (map order), half of the verifications with the intermediate of a foreign chain passed as caller-supplied intermediate, half with a (non-matching) parameter dictionary, half through InTotoVerifyWithDirectory; the same populations against layouts that name no CA at all (no certificate counts, although the verifying host's own trust store - SSL_CERT_FILE - trusts the functionaries' CA); links that never count report other artifacts than the honest ones; VerifyLinkSignatureThesholds is also called directly and its map inspected; a sequence of two layouts that define one key id with different key material; finally single-step chains whose step name and link directory name contain characters of file-name patterns ([ ] * ? \\ { }), blanks and non-ASCII letters (12 step names x 7 directory names, with and without the honest link). Oracle: expected number of distinct counting functionaries known by construction. " +
+		Rule: "layout with steps t (earlier), s (under test), u (later); step s with threshold 1..3 and authorization by {2 listed keys, 1 certificate constraint + layout root/intermediate CA, both}; link-file populations for s = all multisets of size<=2 (quick) / <=3 (thorough, + 2000 random ones of size 4-8) over a catalogue of 28 link kinds (honest key A/B, honest certificate C / D via intermediate, tampered, unsigned, unauthorized key, key of an earlier / a later step, copy under another name, copy with forged key-id entry without / with the honest certificate, relabelled copy (forged id with the honest signature value and certificate), junk signatures before/after, expired / foreign-root / constraint-failing certificate, certificate repeating one of two required organizations, tampered copy filed under nine characters of the honest functionary's key id, copy under the upper-case spelling of the honest functionary's key id, honest key-authorized link whose signature also carries an unrelated certificate, honest link filed as a symlink, garbage, truncated JSON, link of another step renamed) x 2 wrappers; the earlier step t also admits certificate functionary C (its verdict must not leak into s); every population of >=2 files is verified 8 times (map order), half of the verifications with the intermediate of a foreign chain passed as caller-supplied intermediate, half with a (non-matching) parameter dictionary, half through InTotoVerifyWithDirectory; the same populations against layouts that name no CA at all (no certificate counts, although the verifying host's own trust store - SSL_CERT_FILE - trusts the functionaries' CA); links that never count report other artifacts than the honest ones; VerifyLinkSignatureThesholds is also called directly and its map inspected; a sequence of two layouts that define one key id with different key material; finally single-step chains whose step name and link directory name contain characters of file-name patterns ([ ] * ? \\ { }), blanks and non-ASCII letters (12 step names x 7 directory names, with and without the honest link). Oracle: expected number of distinct counting functionaries known by construction. " +
 			"non-trivial = at least one file for the step; distinct = (kind multiset, threshold, authorization, wrapper)",
 		Assumptions: []string{"a junk signature entry that carries the honest signer's own key id before the honest entry is not judged", "a link that an authorized functionary signed for ANOTHER step, renamed to this step's file name, is not judged (observed: it is counted; the statement only speaks about who signed)", "all links of a case report identical artifacts (agreement is C05's business)"},
 		Workers:     func(string) int { return 16 },
